@@ -1,0 +1,1027 @@
+// Verification contracts (comment-only, compiled only with the "verif" build tag; read by /verif/govc).
+
+//go:build verif
+// +build verif
+
+package vm
+
+// Property C16 — failed EVM calls leave no trace; value and gas are accounted exactly.
+//
+// Abstract state. The whole vm.StateDB (balances, nonces, code, storage, logs, existence, refund counter, preimages,
+// staking tables) is ONE opaque value: the ghost variable c16Sigma (a "state version"). Two states are the same state
+// iff their versions are equal. Projections of a version that the property talks about are uninterpreted functions:
+//   c16Bal(s, a)   balance of account a in state s
+//   c16Total(s)    sum of all balances in state s
+// Snapshots: c16Snap[id] is the state version that Snapshot() recorded under id; c16Next bounds the ids issued so far.
+// RevertToSnapshot(id) re-installs exactly that version: this is property C09's theorem, used here as callee contract.
+
+//@ ghost var c16Sigma: int
+//@ ghost var c16Snap: map[int]int
+//@ ghost var c16Next: int
+
+//@ spec func c16Total(s: int) int                            // sum of all balances in state s
+//@ spec func c16Bal(s: int, a: common.Address) int           // balance of a in s (0 for a non-existent account)
+//@ spec func c16Nonce(s: int, a: common.Address) int
+//@ spec func c16Dead(s: int, a: common.Address) bool         // a does not exist in s or is empty (EIP-161: nonce 0, balance 0, no code)
+//@ spec func c16SetNonce(s: int, a: common.Address, n: int) int
+//@ spec func c16AddrOf(r: int) common.Address                // the address a ContractRef answers with
+
+// What a state version identifies: balances, nonces, code, storage, logs, suicide marks, the refund counter and the set
+// of NON-EMPTY accounts — i.e. the state modulo the EIP-161 equivalence "an empty account is the same as no account".
+// Every caller in the repository finalises with deleteEmptyObjects = true (core/state_processor.go, block_validator.go,
+// genesis.go), no opcode distinguishes the two (BALANCE, EXTCODESIZE, EXTCODEHASH, gasCall, gasSuicide use Empty()), so
+// creating an empty account where none was, or crediting/debiting zero ("touch"), does not change the state version.
+// The preimage table (AddPreimage) is not part of the version: it is not among the observables of the property.
+
+// ---------------------------------------------------------------------------------------------------------------
+// vm.StateDB: trusted interface contracts (implemented by core/state.StateDB; Snapshot/RevertToSnapshot = C09)
+// ---------------------------------------------------------------------------------------------------------------
+
+//@ func (StateDB).Snapshot props C16
+//@ trusted
+//@ modifies c16Snap, c16Next
+//@ ensures result >= old(c16Next) && c16Next == result + 1          // a new id, larger than every id issued before
+//@ ensures c16Snap == store(old(c16Snap), result, c16Sigma)
+
+//@ func (StateDB).RevertToSnapshot props C16
+//@ trusted
+//@ requires [snapshot-issued] arg0 < c16Next
+//@ modifies c16Sigma
+//@ ensures c16Sigma == c16Snap[arg0]
+
+// readers
+//@ func (StateDB).Exist props C16
+//@ trusted
+//@ pure
+//@ ensures !result ==> c16Dead(c16Sigma, arg0)
+
+//@ func (StateDB).Empty props C16
+//@ trusted
+//@ pure
+//@ ensures result == c16Dead(c16Sigma, arg0)
+
+//@ func (StateDB).GetBalance props C16
+//@ trusted
+//@ pure
+//@ ensures result != nil && big(result) == c16Bal(c16Sigma, arg0) && c16Bal(c16Sigma, arg0) >= 0     // balances are never negative
+
+//@ func (StateDB).GetNonce props C16
+//@ trusted
+//@ pure
+//@ ensures result == c16Nonce(c16Sigma, arg0)
+
+//@ func (StateDB).GetCodeHash props C16
+//@ trusted
+//@ pure
+
+//@ func (StateDB).GetCode props C16
+//@ trusted
+//@ pure
+
+//@ func (StateDB).GetCodeSize props C16
+//@ trusted
+//@ pure
+
+//@ func (StateDB).GetRefund props C16
+//@ trusted
+//@ pure
+
+//@ func (StateDB).GetState props C16
+//@ trusted
+//@ pure
+
+//@ func (StateDB).GetCommittedState props C16
+//@ trusted
+//@ pure
+
+//@ func (StateDB).HasSuicided props C16
+//@ trusted
+//@ pure
+
+//@ func (StateDB).AddPreimage props C16      // not part of the state version, see above
+//@ trusted
+//@ pure
+
+// writers
+//@ func (StateDB).CreateAccount props C16    // balance is carried over (statedb.go: newObj.setBalance(prevObj.data.Balance))
+//@ trusted
+//@ modifies c16Sigma
+//@ ensures c16Dead(old(c16Sigma), arg0) ==> c16Sigma == old(c16Sigma)
+//@ ensures c16Total(c16Sigma) == c16Total(old(c16Sigma))
+//@ ensures forall b: common.Address :: { c16Bal(c16Sigma, b) } c16Bal(c16Sigma, b) == c16Bal(old(c16Sigma), b)
+
+//@ func (StateDB).AddBalance props C16
+//@ trusted
+//@ modifies c16Sigma
+//@ ensures big(arg1) == 0 ==> c16Sigma == old(c16Sigma)
+//@ ensures c16Total(c16Sigma) == c16Total(old(c16Sigma)) + big(arg1)
+//@ ensures c16Bal(c16Sigma, arg0) == c16Bal(old(c16Sigma), arg0) + big(arg1)
+//@ ensures forall b: common.Address :: { c16Bal(c16Sigma, b) } b != arg0 ==> c16Bal(c16Sigma, b) == c16Bal(old(c16Sigma), b)
+
+//@ func (StateDB).SubBalance props C16
+//@ trusted
+//@ modifies c16Sigma
+//@ ensures big(arg1) == 0 ==> c16Sigma == old(c16Sigma)
+//@ ensures c16Total(c16Sigma) == c16Total(old(c16Sigma)) - big(arg1)
+//@ ensures c16Bal(c16Sigma, arg0) == c16Bal(old(c16Sigma), arg0) - big(arg1)
+//@ ensures forall b: common.Address :: { c16Bal(c16Sigma, b) } b != arg0 ==> c16Bal(c16Sigma, b) == c16Bal(old(c16Sigma), b)
+
+// SetNonce is an exact state transformer: the state after it is a function of the state before, the account and the value.
+//@ func (StateDB).SetNonce props C16
+//@ trusted
+//@ modifies c16Sigma
+//@ ensures c16Sigma == c16SetNonce(old(c16Sigma), arg0, arg1)
+//@ ensures c16Total(c16Sigma) == c16Total(old(c16Sigma))
+//@ ensures forall b: common.Address :: { c16Bal(c16Sigma, b) } c16Bal(c16Sigma, b) == c16Bal(old(c16Sigma), b)
+
+//@ func (StateDB).SetCode props C16
+//@ trusted
+//@ modifies c16Sigma
+//@ ensures c16Total(c16Sigma) == c16Total(old(c16Sigma))
+
+//@ func (StateDB).SetState props C16
+//@ trusted
+//@ modifies c16Sigma
+//@ ensures c16Total(c16Sigma) == c16Total(old(c16Sigma))
+
+//@ func (StateDB).AddLog props C16
+//@ trusted
+//@ modifies c16Sigma
+//@ ensures c16Total(c16Sigma) == c16Total(old(c16Sigma))
+
+//@ func (StateDB).AddRefund props C16
+//@ trusted
+//@ modifies c16Sigma
+//@ ensures c16Total(c16Sigma) == c16Total(old(c16Sigma))
+
+//@ func (StateDB).SubRefund props C16
+//@ trusted
+//@ modifies c16Sigma
+//@ ensures c16Total(c16Sigma) == c16Total(old(c16Sigma))
+
+// Suicide zeroes the account's balance (statedb.go: stateObject.data.Balance = new(big.Int)): the only place value is burnt.
+//@ func (StateDB).Suicide props C16
+//@ trusted
+//@ modifies c16Sigma
+//@ ensures c16Total(c16Sigma) == c16Total(old(c16Sigma)) - c16Bal(old(c16Sigma), arg0)
+//@ ensures c16Bal(c16Sigma, arg0) == 0
+
+// Function values stored in vm.Context by core.NewEVMContext: contracts of the function TYPES. core.CanTransfer and
+// core.Transfer are verified against the same clauses in core/verif_contracts_c16.go.
+//@ func dynamic:CanTransferFunc props C16
+//@ trusted
+//@ pure
+//@ ensures result == (c16Bal(c16Sigma, arg1) >= big(arg2))
+
+//@ func dynamic:TransferFunc props C16
+//@ trusted
+//@ requires [can-transfer-checked] c16Bal(c16Sigma, arg1) >= big(arg3)
+//@ modifies c16Sigma
+//@ ensures big(arg3) == 0 ==> c16Sigma == old(c16Sigma)
+//@ ensures c16Total(c16Sigma) == c16Total(old(c16Sigma))
+//@ ensures forall b: common.Address :: { c16Bal(c16Sigma, b) } b != arg1 && b != arg2 ==> c16Bal(c16Sigma, b) == c16Bal(old(c16Sigma), b)
+
+//@ func (Tracer).CaptureStart props C16
+//@ trusted
+//@ pure
+
+// ---------------------------------------------------------------------------------------------------------------
+// Contract: the gas account of one frame
+// ---------------------------------------------------------------------------------------------------------------
+
+// ContractRef is implemented by AccountRef (a value) and *Contract (reads c.self): no effect on modelled state.
+//@ func (ContractRef).Address props C16
+//@ trusted
+//@ pure
+//@ ensures result == c16AddrOf(recv)   // deterministic: a frame's address does not change while the frame runs
+
+//@ func NewContract props C16
+//@ modifies nothing
+//@ ensures [gas-supplied] fresh(result) && result.Gas == gas
+//@ ensures [fields] result.caller == caller && result.self == object && result.value == value
+
+//@ func (*Contract).UseGas props C16
+//@ panics none
+//@ requires c != nil
+//@ modifies c.Gas
+//@ ensures [only-decreases] c.Gas <= old(c.Gas)
+//@ ensures [exact] ok == (old(c.Gas) >= gas) && c.Gas == (if old(c.Gas) >= gas then old(c.Gas) - gas else old(c.Gas))
+
+//@ func (*Contract).SetCallCode props C16
+//@ requires c != nil
+//@ modifies c.Code, c.CodeHash, c.CodeAddr
+//@ ensures [code] c.Code == code && c.CodeAddr == addr
+
+//@ func (*Contract).AsDelegate props C16
+//@ requires c != nil
+//@ modifies c.DelegateCall, c.CallerAddress, c.value
+//@ ensures [same-frame] result == c
+
+// ---------------------------------------------------------------------------------------------------------------
+// run: the recursive step. Its contract is the induction hypothesis over the call depth (ASSUMED, see props/C16.json):
+// every clause below is what the five frame constructors are proved to establish, one level down.
+// ---------------------------------------------------------------------------------------------------------------
+
+// the interpreter of this EVM is in read-only (static) mode
+//@ spec func c16InStatic(evm: *EVM) bool = unbox(evm.interpreter, *EVMInterpreter).readOnly
+
+//@ func run props C16
+//@ nobody
+//@ requires contract != nil
+//@ modifies c16Sigma, c16Snap, c16Next, contract.Gas, contract.Input, all(EVMInterpreter.returnData)
+//@ ensures [gas-monotone]    contract.Gas <= old(contract.Gas)
+//@ ensures [outer-snapshots] c16Next >= old(c16Next) && (forall i: int :: { c16Snap[i] } i < old(c16Next) ==> c16Snap[i] == old(c16Snap[i]))
+//@ ensures [value]           c16Total(c16Sigma) <= c16Total(old(c16Sigma))
+//@ ensures [static]          readOnly || old(c16InStatic(evm)) ==> c16Sigma == old(c16Sigma)
+
+// ---------------------------------------------------------------------------------------------------------------
+// The frame constructors. Clauses, from the property statement:
+//   [no-trace]        a frame that ends in an error or revert leaves the state exactly as it was before the frame
+//   [gas-returned]    gas returned never exceeds gas supplied
+//   [gas-burnt]       an error other than revert consumes all gas of the frame (only gas is consumed)
+//   [value]           the total of all balances does not grow (it shrinks only by self-destruct burns inside run)
+//   [static]          beneath a static call (interpreter in read-only mode) nothing changes
+//   [outer-snapshots] the frame neither alters nor invalidates a snapshot of an enclosing frame (needed for nesting)
+// The frame `modifies …` is checked: no Go object that existed before the call is written, except returnData.
+// ---------------------------------------------------------------------------------------------------------------
+
+//@ func (*EVM).Call props C16
+//@ requires evm != nil && evm.vmConfig != nil
+//@ modifies c16Sigma, c16Snap, c16Next, all(EVMInterpreter.returnData)
+//@ ensures [no-trace]        err != nil ==> c16Sigma == old(c16Sigma)
+//@ ensures [gas-returned]    leftOverGas <= gas
+//@ ensures [gas-burnt]       err != nil && err != errExecutionReverted && err != ErrDepth && err != ErrInsufficientBalance ==> leftOverGas == 0
+//@ ensures [value]           c16Total(c16Sigma) <= c16Total(old(c16Sigma))
+//@ ensures [static]          old(c16InStatic(evm)) && big(value) == 0 ==> c16Sigma == old(c16Sigma)   // CALL with value != 0 is refused by the gate in Run
+// Strict reading of "a static call … changes nothing" incl. "created accounts": in read-only mode Call must not reach
+// CreateAccount. On the current tree it does (zero-value CALL to a non-existent address, no EIP-158 shortcut): the account
+// object is created empty (Exist flips to true until Finalise(true) drops it). Demonstrated by
+// proposed_fixes/C16/static_call_creates_account.md; with the proposed patch this assert is discharged.
+//@ // (repaired in /repo: the zero-value call to a non-existent account returns before CreateAccount)
+//@ assert before call (StateDB).CreateAccount: [static-creates-no-account] !(c16InStatic(evm) && big(value) == 0 && PrecompiledContractsByzantium[addr] == nil)
+//@ ensures [outer-snapshots] c16Next >= old(c16Next) && (forall i: int :: i < old(c16Next) ==> c16Snap[i] == old(c16Snap[i]))
+
+//@ func (*EVM).CallCode props C16
+//@ requires evm != nil && evm.vmConfig != nil
+//@ modifies c16Sigma, c16Snap, c16Next, all(EVMInterpreter.returnData)
+//@ ensures [no-trace]        err != nil ==> c16Sigma == old(c16Sigma)
+//@ ensures [gas-returned]    leftOverGas <= gas
+//@ ensures [gas-burnt]       err != nil && err != errExecutionReverted && err != ErrDepth && err != ErrInsufficientBalance ==> leftOverGas == 0
+//@ ensures [value]           c16Total(c16Sigma) <= c16Total(old(c16Sigma))
+//@ ensures [static]          old(c16InStatic(evm)) ==> c16Sigma == old(c16Sigma)
+//@ ensures [outer-snapshots] c16Next >= old(c16Next) && (forall i: int :: i < old(c16Next) ==> c16Snap[i] == old(c16Snap[i]))
+
+//@ func (*EVM).DelegateCall props C16
+//@ requires evm != nil && evm.vmConfig != nil
+//@ modifies c16Sigma, c16Snap, c16Next, all(EVMInterpreter.returnData)
+//@ ensures [no-trace]        err != nil ==> c16Sigma == old(c16Sigma)
+//@ ensures [gas-returned]    leftOverGas <= gas
+//@ ensures [gas-burnt]       err != nil && err != errExecutionReverted && err != ErrDepth ==> leftOverGas == 0
+//@ ensures [value]           c16Total(c16Sigma) <= c16Total(old(c16Sigma))
+//@ ensures [static]          old(c16InStatic(evm)) ==> c16Sigma == old(c16Sigma)
+//@ ensures [outer-snapshots] c16Next >= old(c16Next) && (forall i: int :: i < old(c16Next) ==> c16Snap[i] == old(c16Snap[i]))
+
+//@ func (*EVM).StaticCall props C16
+//@ requires evm != nil && evm.vmConfig != nil
+//@ modifies c16Sigma, c16Snap, c16Next, all(EVMInterpreter.returnData)
+//@ ensures [static-no-change] c16Sigma == old(c16Sigma)
+//@ ensures [gas-returned]    leftOverGas <= gas
+//@ ensures [gas-burnt]       err != nil && err != errExecutionReverted && err != ErrDepth ==> leftOverGas == 0
+//@ ensures [outer-snapshots] c16Next >= old(c16Next) && (forall i: int :: i < old(c16Next) ==> c16Snap[i] == old(c16Snap[i]))
+
+// create: the caller's nonce is bumped BEFORE the snapshot (EVM semantics; the nonce is not among the observables the
+// statement lists), so a failed create leaves either the entry state (depth / balance failure) or exactly the entry
+// state with nonce(caller)+1. Which of the two cannot be told from the error value alone (run may return any error).
+//@ func (*EVM).create props C16
+//@ requires evm != nil && evm.vmConfig != nil
+//@ let who = c16AddrOf(caller)
+//@ modifies c16Sigma, c16Snap, c16Next, all(EVMInterpreter.returnData)
+//@ ensures [no-trace]        result3 != nil ==> c16Sigma == old(c16Sigma) ||
+//@                               c16Sigma == c16SetNonce(old(c16Sigma), who, wrap64(c16Nonce(old(c16Sigma), who) + 1))
+//@ ensures [gas-returned]    result2 <= gas
+//@ ensures [gas-burnt]       result3 != nil && result3 != errExecutionReverted && result3 != ErrDepth && result3 != ErrInsufficientBalance ==> result2 == 0
+//@ ensures [value]           c16Total(c16Sigma) <= c16Total(old(c16Sigma))
+//@ ensures [outer-snapshots] c16Next >= old(c16Next) && (forall i: int :: i < old(c16Next) ==> c16Snap[i] == old(c16Snap[i]))
+
+//@ func (*EVM).Create props C16
+//@ requires evm != nil && evm.vmConfig != nil
+//@ let who = c16AddrOf(caller)
+//@ modifies c16Sigma, c16Snap, c16Next, all(EVMInterpreter.returnData)
+//@ ensures [no-trace]        err != nil ==> c16Sigma == old(c16Sigma) ||
+//@                               c16Sigma == c16SetNonce(old(c16Sigma), who, wrap64(c16Nonce(old(c16Sigma), who) + 1))
+//@ ensures [gas-returned]    leftOverGas <= gas
+//@ ensures [value]           c16Total(c16Sigma) <= c16Total(old(c16Sigma))
+//@ ensures [outer-snapshots] c16Next >= old(c16Next) && (forall i: int :: i < old(c16Next) ==> c16Snap[i] == old(c16Snap[i]))
+
+//@ func (*EVM).Create2 props C16
+//@ requires evm != nil && evm.vmConfig != nil
+//@ let who = c16AddrOf(caller)
+//@ modifies c16Sigma, c16Snap, c16Next, all(EVMInterpreter.returnData)
+//@ ensures [no-trace]        err != nil ==> c16Sigma == old(c16Sigma) ||
+//@                               c16Sigma == c16SetNonce(old(c16Sigma), who, wrap64(c16Nonce(old(c16Sigma), who) + 1))
+//@ ensures [gas-returned]    leftOverGas <= gas
+//@ ensures [value]           c16Total(c16Sigma) <= c16Total(old(c16Sigma))
+//@ ensures [outer-snapshots] c16Next >= old(c16Next) && (forall i: int :: i < old(c16Next) ==> c16Snap[i] == old(c16Snap[i]))
+
+// ---------------------------------------------------------------------------------------------------------------
+// Operand stack, integer pool, memory: thin contracts. Stack discipline (enough operands, slots non-nil, the pool and the
+// stack do not share references) is property C15's subject and is ASSUMED here (`nobody`): C16 needs from these helpers
+// only that they do not touch the state, and — for CALL in static context — which slot a pop returns.
+// ---------------------------------------------------------------------------------------------------------------
+
+//@ func (*Stack).pop props C16
+//@ nobody
+//@ modifies st.data
+//@ ensures ret != nil && ret == old(st.data[len(st.data) - 1]) && st.data == old(st.data[:len(st.data) - 1])
+
+//@ func (*Stack).peek props C16
+//@ nobody
+//@ pure
+//@ ensures result != nil && result == st.data[len(st.data) - 1]
+
+//@ func (*Stack).Back props C16
+//@ nobody
+//@ pure
+//@ ensures result != nil && result == st.data[len(st.data) - n - 1]
+
+//@ func (*Stack).len props C16
+//@ pure
+//@ ensures result == len(st.data)
+
+//@ func (*Stack).push props C16
+//@ nobody
+//@ modifies st.data, elems(st.data)
+
+//@ func (*Stack).swap props C16
+//@ modifies all
+
+//@ func (*Stack).dup props C16
+//@ modifies all
+
+//@ func (*intPool).get props C16
+//@ nobody
+//@ modifies p.pool.data
+//@ ensures result != nil
+
+//@ func (*intPool).getZero props C16
+//@ nobody
+//@ modifies p.pool.data, all(big)
+//@ ensures result != nil
+
+// put: appends to the pool's own stack; no integer is written (verifyPool is false in this build)
+//@ func (*intPool).put props C16
+//@ nobody
+//@ modifies p.pool.data, elems(p.pool.data)
+
+// Memory: byte-slice copying; frames ASSUMED (the solver does not get through the copy/append axioms in the time budget)
+//@ func (*Memory).Get props C16
+//@ nobody
+//@ modifies nothing
+
+//@ func (*Memory).GetPtr props C16
+//@ nobody
+//@ modifies nothing
+
+//@ func (*Memory).Set props C16
+//@ nobody
+//@ modifies elems(m.store)
+
+//@ func (*Memory).Set32 props C16
+//@ nobody
+//@ modifies elems(m.store)
+
+//@ func (*Memory).Resize props C16
+//@ nobody
+//@ modifies m.store, elems(m.store)
+
+// jump destination analysis: fills the per-code-hash cache map, loops over the code
+//@ func (destinations).has props C16
+//@ nobody
+//@ modifies all
+
+//@ func (*Memory).Len props C16
+//@ pure
+
+//@ func (*Memory).Data props C16
+//@ pure
+
+// ---------------------------------------------------------------------------------------------------------------
+// The interpreter loop: write protection in static context
+// ---------------------------------------------------------------------------------------------------------------
+
+// c16Plain(f): opcode function f never writes the state (each one is verified against [no-state-write] below).
+//@ spec func c16Plain(f: int) bool =
+//@     f == opAdd || f == opAddmod || f == opAddress || f == opAnd || f == opBalance || f == opBlockhash ||
+//@     f == opByte || f == opCallDataCopy || f == opCallDataLoad || f == opCallDataSize || f == opCallValue ||
+//@     f == opCaller || f == opCodeCopy || f == opCodeSize || f == opCoinbase || f == opDifficulty ||
+//@     f == opDiv || f == opEq || f == opExp || f == opExtCodeCopy || f == opExtCodeHash ||
+//@     f == opExtCodeSize || f == opGas || f == opGasLimit || f == opGasprice || f == opGt || f == opIszero ||
+//@     f == opJump || f == opJumpdest || f == opJumpi || f == opLt || f == opMload || f == opMod ||
+//@     f == opMsize || f == opMstore || f == opMstore8 || f == opMul || f == opMulmod || f == opNetworkId ||
+//@     f == opNot || f == opNumber || f == opOr || f == opOrigin || f == opPc || f == opPop ||
+//@     f == opReturn || f == opReturnDataCopy || f == opReturnDataSize || f == opRevert || f == opSAR ||
+//@     f == opSHL || f == opSHR || f == opSdiv || f == opSelfBalance || f == opSgt || f == opSha3 ||
+//@     f == opSignExtend || f == opSload || f == opSlt || f == opSmod || f == opStop || f == opSub ||
+//@     f == opTimestamp || f == opXor || f == makePush$1 || f == makeDup$1 || f == makeSwap$1
+
+// c16ROSafe(f): f does not write the state when the interpreter is in read-only mode: the plain ones and the call
+// family (for CALL: provided the value operand is zero). The writers SSTORE, LOGn, CREATE, CREATE2, SELFDESTRUCT are not.
+//@ spec func c16ROSafe(f: int) bool = c16Plain(f) || f == opCall || f == opCallCode || f == opDelegateCall || f == opStaticCall
+
+// dynamic gas functions that do not touch the refund counter (gasSStore*, gasSuicide do)
+//@ spec func c16ROSafeGas(f: int) bool =
+//@     f == gasCall || f == gasCallCode || f == gasDelegateCall || f == gasStaticCall || f == memoryCopierGas$1 ||
+//@     f == gasSha3 || f == gasExp || f == pureMemoryGascost
+// (gasCallDataCopy, gasCodeCopy, gasExtCodeCopy, gasReturnDataCopy are package-level VARIABLES holding memoryCopierGas closures)
+
+// A jump table is well formed when every valid entry without the `writes` flag runs only read-only-safe functions.
+//@ spec func c16TableOK(t: [256]operation) bool =
+//@     forall i: int :: { t[i] } 0 <= i && i < 256 && t[i].valid && !t[i].writes ==>
+//@         c16ROSafe(t[i].execute) && (t[i].dynamicGas == nil || c16ROSafeGas(t[i].dynamicGas)) &&
+//@         (t[i].execute == opCall ==> i == CALL)      // the gate in Run tests the opcode NUMBER for the value operand
+
+// Contracts of the three function TYPES of a table entry (trusted: each is the conjunction of the verified contracts of
+// the functions of that type, see the per-function contracts below; that these functions do not write
+// EVMInterpreter.readOnly / cfg / evm nor Config.JumpTable is a syntactic fact: the only stores are in Run and NewEVMInterpreter).
+//@ func dynamic:memorySizeFunc props C16
+//@ trusted
+//@ pure
+//@ ensures result != nil
+
+//@ func dynamic:gasFunc props C16
+//@ trusted
+//@ modifies c16Sigma, arg0.callGasTemp, arg3.lastGasCost
+//@ ensures [static] c16ROSafeGas(callee) ==> c16Sigma == old(c16Sigma)
+//@ ensures [value]  c16Total(c16Sigma) == c16Total(old(c16Sigma))
+
+//@ func dynamic:executionFunc props C16
+//@ trusted
+//@ modifies all, c16Sigma, c16Snap, c16Next
+//@ ensures [wiring-kept] interpreter.readOnly == old(interpreter.readOnly) && interpreter.cfg == old(interpreter.cfg) && interpreter.evm == old(interpreter.evm) &&
+//@                       interpreter.cfg.JumpTable == old(interpreter.cfg.JumpTable) && contract.Gas <= 2^64 - 1
+//@ ensures [static] old(interpreter.readOnly) && c16ROSafe(callee) && (callee == opCall ==> old(big(stack.data[len(stack.data) - 3])) == 0) ==> c16Sigma == old(c16Sigma)
+//@ ensures [value]  c16Total(c16Sigma) <= c16Total(old(c16Sigma))
+//@ ensures [outer-snapshots] c16Next >= old(c16Next) && (forall i: int :: { c16Snap[i] } i < old(c16Next) ==> c16Snap[i] == old(c16Snap[i]))
+
+//@ func (Tracer).CaptureState props C16
+//@ trusted
+//@ pure
+
+//@ func (Tracer).CaptureFault props C16
+//@ trusted
+//@ pure
+
+//@ func (*intPoolPool).get props C16
+//@ nobody
+//@ modifies all(intPoolPool.pools)
+//@ ensures result != nil
+
+// Run. [write-gate] is the property's static-call clause at the point where it matters: immediately before the opcode
+// function is called. The loop invariant carries "in read-only mode the state is still the entry state".
+//@ func (*EVMInterpreter).Run props C16
+//@ requires in != nil && in.evm != nil && in.cfg != nil && contract != nil
+//@ requires [table] c16TableOK(in.cfg.JumpTable)
+//@ modifies all, c16Sigma, c16Snap, c16Next
+//@ loop #1 invariant [wiring] in.readOnly == (readOnly || old(in.readOnly)) && in.cfg == old(in.cfg) && in.evm == old(in.evm) && in.cfg.JumpTable == old(in.cfg.JumpTable)
+//@ loop #1 invariant [static] in.readOnly ==> c16Sigma == old(c16Sigma)
+//@ loop #1 invariant [value]  c16Total(c16Sigma) <= c16Total(old(c16Sigma))
+//@ loop #1 invariant [outer-snapshots] c16Next >= old(c16Next) && (forall i: int :: i < old(c16Next) ==> c16Snap[i] == old(c16Snap[i]))
+//@ assert before call executionFunc: [write-gate] in.readOnly ==> !operation.writes && !(op == CALL && big(stack.data[len(stack.data) - 3]) != 0)
+//@ ensures [static] readOnly || old(in.readOnly) ==> c16Sigma == old(c16Sigma)
+//@ ensures [value]  c16Total(c16Sigma) <= c16Total(old(c16Sigma))
+//@ ensures [outer-snapshots] c16Next >= old(c16Next) && (forall i: int :: i < old(c16Next) ==> c16Snap[i] == old(c16Snap[i]))
+
+// ---------------------------------------------------------------------------------------------------------------
+// Opcode functions that never write the state: on every path only `pure` StateDB methods are used. (`modifies all` without
+// ghost variables also makes the engine generate #frame[Ghost:…] obligations as soon as a path touches a ghost variable.)
+// (generated from the `execute:` entries of jump_table.go minus the writers and the call family)
+// ---------------------------------------------------------------------------------------------------------------
+
+//@ func opAdd props C16
+//@ modifies all
+//@ ensures [no-state-write] c16Sigma == old(c16Sigma) && c16Snap == old(c16Snap) && c16Next == old(c16Next)
+
+//@ func opAddmod props C16
+//@ modifies all
+//@ ensures [no-state-write] c16Sigma == old(c16Sigma) && c16Snap == old(c16Snap) && c16Next == old(c16Next)
+
+//@ func opAddress props C16
+//@ modifies all
+//@ ensures [no-state-write] c16Sigma == old(c16Sigma) && c16Snap == old(c16Snap) && c16Next == old(c16Next)
+
+//@ func opAnd props C16
+//@ modifies all
+//@ ensures [no-state-write] c16Sigma == old(c16Sigma) && c16Snap == old(c16Snap) && c16Next == old(c16Next)
+
+//@ func opBalance props C16
+//@ modifies all
+//@ ensures [no-state-write] c16Sigma == old(c16Sigma) && c16Snap == old(c16Snap) && c16Next == old(c16Next)
+
+//@ func opBlockhash props C16
+//@ modifies all
+//@ ensures [no-state-write] c16Sigma == old(c16Sigma) && c16Snap == old(c16Snap) && c16Next == old(c16Next)
+
+//@ func opByte props C16
+//@ modifies all
+//@ ensures [no-state-write] c16Sigma == old(c16Sigma) && c16Snap == old(c16Snap) && c16Next == old(c16Next)
+
+//@ func opCallDataCopy props C16
+//@ modifies all
+//@ ensures [no-state-write] c16Sigma == old(c16Sigma) && c16Snap == old(c16Snap) && c16Next == old(c16Next)
+
+//@ func opCallDataLoad props C16
+//@ modifies all
+//@ ensures [no-state-write] c16Sigma == old(c16Sigma) && c16Snap == old(c16Snap) && c16Next == old(c16Next)
+
+//@ func opCallDataSize props C16
+//@ modifies all
+//@ ensures [no-state-write] c16Sigma == old(c16Sigma) && c16Snap == old(c16Snap) && c16Next == old(c16Next)
+
+//@ func opCallValue props C16
+//@ modifies all
+//@ ensures [no-state-write] c16Sigma == old(c16Sigma) && c16Snap == old(c16Snap) && c16Next == old(c16Next)
+
+//@ func opCaller props C16
+//@ modifies all
+//@ ensures [no-state-write] c16Sigma == old(c16Sigma) && c16Snap == old(c16Snap) && c16Next == old(c16Next)
+
+//@ func opCodeCopy props C16
+//@ modifies all
+//@ ensures [no-state-write] c16Sigma == old(c16Sigma) && c16Snap == old(c16Snap) && c16Next == old(c16Next)
+
+//@ func opCodeSize props C16
+//@ modifies all
+//@ ensures [no-state-write] c16Sigma == old(c16Sigma) && c16Snap == old(c16Snap) && c16Next == old(c16Next)
+
+//@ func opCoinbase props C16
+//@ modifies all
+//@ ensures [no-state-write] c16Sigma == old(c16Sigma) && c16Snap == old(c16Snap) && c16Next == old(c16Next)
+
+//@ func opDifficulty props C16
+//@ modifies all
+//@ ensures [no-state-write] c16Sigma == old(c16Sigma) && c16Snap == old(c16Snap) && c16Next == old(c16Next)
+
+//@ func opDiv props C16
+//@ modifies all
+//@ ensures [no-state-write] c16Sigma == old(c16Sigma) && c16Snap == old(c16Snap) && c16Next == old(c16Next)
+
+//@ func opEq props C16
+//@ modifies all
+//@ ensures [no-state-write] c16Sigma == old(c16Sigma) && c16Snap == old(c16Snap) && c16Next == old(c16Next)
+
+//@ func opExp props C16
+//@ modifies all
+//@ ensures [no-state-write] c16Sigma == old(c16Sigma) && c16Snap == old(c16Snap) && c16Next == old(c16Next)
+
+//@ func opExtCodeCopy props C16
+//@ modifies all
+//@ ensures [no-state-write] c16Sigma == old(c16Sigma) && c16Snap == old(c16Snap) && c16Next == old(c16Next)
+
+//@ func opExtCodeHash props C16
+//@ modifies all
+//@ ensures [no-state-write] c16Sigma == old(c16Sigma) && c16Snap == old(c16Snap) && c16Next == old(c16Next)
+
+//@ func opExtCodeSize props C16
+//@ modifies all
+//@ ensures [no-state-write] c16Sigma == old(c16Sigma) && c16Snap == old(c16Snap) && c16Next == old(c16Next)
+
+//@ func opGas props C16
+//@ modifies all
+//@ ensures [no-state-write] c16Sigma == old(c16Sigma) && c16Snap == old(c16Snap) && c16Next == old(c16Next)
+
+//@ func opGasLimit props C16
+//@ modifies all
+//@ ensures [no-state-write] c16Sigma == old(c16Sigma) && c16Snap == old(c16Snap) && c16Next == old(c16Next)
+
+//@ func opGasprice props C16
+//@ modifies all
+//@ ensures [no-state-write] c16Sigma == old(c16Sigma) && c16Snap == old(c16Snap) && c16Next == old(c16Next)
+
+//@ func opGt props C16
+//@ modifies all
+//@ ensures [no-state-write] c16Sigma == old(c16Sigma) && c16Snap == old(c16Snap) && c16Next == old(c16Next)
+
+//@ func opIszero props C16
+//@ modifies all
+//@ ensures [no-state-write] c16Sigma == old(c16Sigma) && c16Snap == old(c16Snap) && c16Next == old(c16Next)
+
+//@ func opJump props C16
+//@ modifies all
+//@ ensures [no-state-write] c16Sigma == old(c16Sigma) && c16Snap == old(c16Snap) && c16Next == old(c16Next)
+
+//@ func opJumpdest props C16
+//@ modifies all
+//@ ensures [no-state-write] c16Sigma == old(c16Sigma) && c16Snap == old(c16Snap) && c16Next == old(c16Next)
+
+//@ func opJumpi props C16
+//@ modifies all
+//@ ensures [no-state-write] c16Sigma == old(c16Sigma) && c16Snap == old(c16Snap) && c16Next == old(c16Next)
+
+//@ func opLt props C16
+//@ modifies all
+//@ ensures [no-state-write] c16Sigma == old(c16Sigma) && c16Snap == old(c16Snap) && c16Next == old(c16Next)
+
+//@ func opMload props C16
+//@ modifies all
+//@ ensures [no-state-write] c16Sigma == old(c16Sigma) && c16Snap == old(c16Snap) && c16Next == old(c16Next)
+
+//@ func opMod props C16
+//@ modifies all
+//@ ensures [no-state-write] c16Sigma == old(c16Sigma) && c16Snap == old(c16Snap) && c16Next == old(c16Next)
+
+//@ func opMsize props C16
+//@ modifies all
+//@ ensures [no-state-write] c16Sigma == old(c16Sigma) && c16Snap == old(c16Snap) && c16Next == old(c16Next)
+
+//@ func opMstore props C16
+//@ modifies all
+//@ ensures [no-state-write] c16Sigma == old(c16Sigma) && c16Snap == old(c16Snap) && c16Next == old(c16Next)
+
+//@ func opMstore8 props C16
+//@ modifies all
+//@ ensures [no-state-write] c16Sigma == old(c16Sigma) && c16Snap == old(c16Snap) && c16Next == old(c16Next)
+
+//@ func opMul props C16
+//@ modifies all
+//@ ensures [no-state-write] c16Sigma == old(c16Sigma) && c16Snap == old(c16Snap) && c16Next == old(c16Next)
+
+//@ func opMulmod props C16
+//@ modifies all
+//@ ensures [no-state-write] c16Sigma == old(c16Sigma) && c16Snap == old(c16Snap) && c16Next == old(c16Next)
+
+//@ func opNetworkId props C16
+//@ modifies all
+//@ ensures [no-state-write] c16Sigma == old(c16Sigma) && c16Snap == old(c16Snap) && c16Next == old(c16Next)
+
+//@ func opNot props C16
+//@ modifies all
+//@ ensures [no-state-write] c16Sigma == old(c16Sigma) && c16Snap == old(c16Snap) && c16Next == old(c16Next)
+
+//@ func opNumber props C16
+//@ modifies all
+//@ ensures [no-state-write] c16Sigma == old(c16Sigma) && c16Snap == old(c16Snap) && c16Next == old(c16Next)
+
+//@ func opOr props C16
+//@ modifies all
+//@ ensures [no-state-write] c16Sigma == old(c16Sigma) && c16Snap == old(c16Snap) && c16Next == old(c16Next)
+
+//@ func opOrigin props C16
+//@ modifies all
+//@ ensures [no-state-write] c16Sigma == old(c16Sigma) && c16Snap == old(c16Snap) && c16Next == old(c16Next)
+
+//@ func opPc props C16
+//@ modifies all
+//@ ensures [no-state-write] c16Sigma == old(c16Sigma) && c16Snap == old(c16Snap) && c16Next == old(c16Next)
+
+//@ func opPop props C16
+//@ modifies all
+//@ ensures [no-state-write] c16Sigma == old(c16Sigma) && c16Snap == old(c16Snap) && c16Next == old(c16Next)
+
+//@ func opReturn props C16
+//@ modifies all
+//@ ensures [no-state-write] c16Sigma == old(c16Sigma) && c16Snap == old(c16Snap) && c16Next == old(c16Next)
+
+//@ func opReturnDataCopy props C16
+//@ modifies all
+//@ ensures [no-state-write] c16Sigma == old(c16Sigma) && c16Snap == old(c16Snap) && c16Next == old(c16Next)
+
+//@ func opReturnDataSize props C16
+//@ modifies all
+//@ ensures [no-state-write] c16Sigma == old(c16Sigma) && c16Snap == old(c16Snap) && c16Next == old(c16Next)
+
+//@ func opRevert props C16
+//@ modifies all
+//@ ensures [no-state-write] c16Sigma == old(c16Sigma) && c16Snap == old(c16Snap) && c16Next == old(c16Next)
+
+//@ func opSAR props C16
+//@ modifies all
+//@ ensures [no-state-write] c16Sigma == old(c16Sigma) && c16Snap == old(c16Snap) && c16Next == old(c16Next)
+
+//@ func opSHL props C16
+//@ modifies all
+//@ ensures [no-state-write] c16Sigma == old(c16Sigma) && c16Snap == old(c16Snap) && c16Next == old(c16Next)
+
+//@ func opSHR props C16
+//@ modifies all
+//@ ensures [no-state-write] c16Sigma == old(c16Sigma) && c16Snap == old(c16Snap) && c16Next == old(c16Next)
+
+//@ func opSdiv props C16
+//@ modifies all
+//@ ensures [no-state-write] c16Sigma == old(c16Sigma) && c16Snap == old(c16Snap) && c16Next == old(c16Next)
+
+//@ func opSelfBalance props C16
+//@ modifies all
+//@ ensures [no-state-write] c16Sigma == old(c16Sigma) && c16Snap == old(c16Snap) && c16Next == old(c16Next)
+
+//@ func opSgt props C16
+//@ modifies all
+//@ ensures [no-state-write] c16Sigma == old(c16Sigma) && c16Snap == old(c16Snap) && c16Next == old(c16Next)
+
+//@ func opSha3 props C16
+//@ modifies all
+//@ ensures [no-state-write] c16Sigma == old(c16Sigma) && c16Snap == old(c16Snap) && c16Next == old(c16Next)
+
+//@ func opSignExtend props C16
+//@ modifies all
+//@ ensures [no-state-write] c16Sigma == old(c16Sigma) && c16Snap == old(c16Snap) && c16Next == old(c16Next)
+
+//@ func opSload props C16
+//@ modifies all
+//@ ensures [no-state-write] c16Sigma == old(c16Sigma) && c16Snap == old(c16Snap) && c16Next == old(c16Next)
+
+//@ func opSlt props C16
+//@ modifies all
+//@ ensures [no-state-write] c16Sigma == old(c16Sigma) && c16Snap == old(c16Snap) && c16Next == old(c16Next)
+
+//@ func opSmod props C16
+//@ modifies all
+//@ ensures [no-state-write] c16Sigma == old(c16Sigma) && c16Snap == old(c16Snap) && c16Next == old(c16Next)
+
+//@ func opStop props C16
+//@ modifies all
+//@ ensures [no-state-write] c16Sigma == old(c16Sigma) && c16Snap == old(c16Snap) && c16Next == old(c16Next)
+
+//@ func opSub props C16
+//@ modifies all
+//@ ensures [no-state-write] c16Sigma == old(c16Sigma) && c16Snap == old(c16Snap) && c16Next == old(c16Next)
+
+//@ func opTimestamp props C16
+//@ modifies all
+//@ ensures [no-state-write] c16Sigma == old(c16Sigma) && c16Snap == old(c16Snap) && c16Next == old(c16Next)
+
+//@ func opXor props C16
+//@ modifies all
+//@ ensures [no-state-write] c16Sigma == old(c16Sigma) && c16Snap == old(c16Snap) && c16Next == old(c16Next)
+
+//@ func makePush$1 props C16
+//@ modifies all
+//@ ensures [no-state-write] c16Sigma == old(c16Sigma) && c16Snap == old(c16Snap) && c16Next == old(c16Next)
+
+//@ func makeDup$1 props C16
+//@ modifies all
+//@ ensures [no-state-write] c16Sigma == old(c16Sigma) && c16Snap == old(c16Snap) && c16Next == old(c16Next)
+
+//@ func makeSwap$1 props C16
+//@ modifies all
+//@ ensures [no-state-write] c16Sigma == old(c16Sigma) && c16Snap == old(c16Snap) && c16Next == old(c16Next)
+
+// ---------------------------------------------------------------------------------------------------------------
+// The call family: not flagged `writes`; in read-only mode they change nothing because the frame constructors pass the
+// mode down ([static] of Call & co.). Gas plumbing: what comes back is added to what was left after the dynamic gas step
+// deducted evm.callGasTemp; it never exceeds the gas passed (callGasTemp, plus the 2300 stipend for a value transfer).
+// [wired]/[apart] are structure invariants established elsewhere (NewEVM/run; C15) and are preconditions here.
+// ---------------------------------------------------------------------------------------------------------------
+
+//@ func opCall props C16
+//@ requires interpreter != nil && interpreter.evm != nil && interpreter.evm.vmConfig != nil && contract != nil && stack != nil
+//@ requires [wired] unbox(interpreter.evm.interpreter, *EVMInterpreter) == interpreter     // set by NewEVM / run
+//@ requires [apart] interpreter.intPool != nil && interpreter.intPool.pool != nil && interpreter.intPool.pool != stack &&
+//@                  base(interpreter.intPool.pool.data) != base(stack.data)                  // C15's ownership invariant (c15Apart)
+//@ modifies all, c16Sigma, c16Snap, c16Next
+//@ ensures [static] old(interpreter.readOnly) && old(big(stack.data[len(stack.data) - 3])) == 0 ==> c16Sigma == old(c16Sigma)
+//@ ensures [value]  c16Total(c16Sigma) <= c16Total(old(c16Sigma))
+//@ ensures [outer-snapshots] c16Next >= old(c16Next) && (forall i: int :: i < old(c16Next) ==> c16Snap[i] == old(c16Snap[i]))
+//@ ensures [gas-plumbing] old(contract.Gas + interpreter.evm.callGasTemp) + params.CallStipend < 2^64 ==>
+//@                            contract.Gas <= old(contract.Gas + interpreter.evm.callGasTemp) + params.CallStipend
+//@ ensures [wiring-kept] interpreter.readOnly == old(interpreter.readOnly) && interpreter.cfg == old(interpreter.cfg) && interpreter.evm == old(interpreter.evm)
+
+//@ func opCallCode props C16
+//@ requires interpreter != nil && interpreter.evm != nil && interpreter.evm.vmConfig != nil && contract != nil && stack != nil
+//@ requires [wired] unbox(interpreter.evm.interpreter, *EVMInterpreter) == interpreter     // set by NewEVM / run
+//@ modifies all, c16Sigma, c16Snap, c16Next
+//@ ensures [static] old(interpreter.readOnly) ==> c16Sigma == old(c16Sigma)
+//@ ensures [value]  c16Total(c16Sigma) <= c16Total(old(c16Sigma))
+//@ ensures [outer-snapshots] c16Next >= old(c16Next) && (forall i: int :: i < old(c16Next) ==> c16Snap[i] == old(c16Snap[i]))
+//@ ensures [gas-plumbing] old(contract.Gas + interpreter.evm.callGasTemp) + params.CallStipend < 2^64 ==>
+//@                            contract.Gas <= old(contract.Gas + interpreter.evm.callGasTemp) + params.CallStipend
+//@ ensures [wiring-kept] interpreter.readOnly == old(interpreter.readOnly) && interpreter.cfg == old(interpreter.cfg) && interpreter.evm == old(interpreter.evm)
+
+//@ func opDelegateCall props C16
+//@ requires interpreter != nil && interpreter.evm != nil && interpreter.evm.vmConfig != nil && contract != nil && stack != nil
+//@ requires [wired] unbox(interpreter.evm.interpreter, *EVMInterpreter) == interpreter     // set by NewEVM / run
+//@ modifies all, c16Sigma, c16Snap, c16Next
+//@ ensures [static] old(interpreter.readOnly) ==> c16Sigma == old(c16Sigma)
+//@ ensures [value]  c16Total(c16Sigma) <= c16Total(old(c16Sigma))
+//@ ensures [outer-snapshots] c16Next >= old(c16Next) && (forall i: int :: i < old(c16Next) ==> c16Snap[i] == old(c16Snap[i]))
+//@ ensures [gas-plumbing] old(contract.Gas + interpreter.evm.callGasTemp) < 2^64 ==> contract.Gas <= old(contract.Gas + interpreter.evm.callGasTemp)
+//@ ensures [wiring-kept] interpreter.readOnly == old(interpreter.readOnly) && interpreter.cfg == old(interpreter.cfg) && interpreter.evm == old(interpreter.evm)
+
+//@ func opStaticCall props C16
+//@ requires interpreter != nil && interpreter.evm != nil && interpreter.evm.vmConfig != nil && contract != nil && stack != nil
+//@ requires [wired] unbox(interpreter.evm.interpreter, *EVMInterpreter) == interpreter     // set by NewEVM / run
+//@ modifies all, c16Sigma, c16Snap, c16Next
+//@ ensures [static-no-change] c16Sigma == old(c16Sigma)
+//@ ensures [outer-snapshots] c16Next >= old(c16Next) && (forall i: int :: i < old(c16Next) ==> c16Snap[i] == old(c16Snap[i]))
+//@ ensures [gas-plumbing] old(contract.Gas + interpreter.evm.callGasTemp) < 2^64 ==> contract.Gas <= old(contract.Gas + interpreter.evm.callGasTemp)
+//@ ensures [wiring-kept] interpreter.readOnly == old(interpreter.readOnly) && interpreter.cfg == old(interpreter.cfg) && interpreter.evm == old(interpreter.evm)
+
+// ---------------------------------------------------------------------------------------------------------------
+// The writers (flagged `writes` in the jump table: unreachable in read-only mode by [write-gate])
+// ---------------------------------------------------------------------------------------------------------------
+
+//@ func opCreate props C16
+//@ requires interpreter != nil && interpreter.evm != nil && interpreter.evm.vmConfig != nil && contract != nil && stack != nil
+//@ requires [wired] unbox(interpreter.evm.interpreter, *EVMInterpreter) == interpreter     // set by NewEVM / run
+//@ modifies all, c16Sigma, c16Snap, c16Next
+//@ ensures [value]  c16Total(c16Sigma) <= c16Total(old(c16Sigma))
+//@ ensures [outer-snapshots] c16Next >= old(c16Next) && (forall i: int :: i < old(c16Next) ==> c16Snap[i] == old(c16Snap[i]))
+//@ ensures [gas-plumbing] contract.Gas <= old(contract.Gas)
+
+//@ func opCreate2 props C16
+//@ requires interpreter != nil && interpreter.evm != nil && interpreter.evm.vmConfig != nil && contract != nil && stack != nil
+//@ requires [wired] unbox(interpreter.evm.interpreter, *EVMInterpreter) == interpreter     // set by NewEVM / run
+//@ modifies all, c16Sigma, c16Snap, c16Next
+//@ ensures [value]  c16Total(c16Sigma) <= c16Total(old(c16Sigma))
+//@ ensures [outer-snapshots] c16Next >= old(c16Next) && (forall i: int :: i < old(c16Next) ==> c16Snap[i] == old(c16Snap[i]))
+//@ ensures [gas-plumbing] contract.Gas <= old(contract.Gas)
+
+//@ func opSstore props C16
+//@ modifies all, c16Sigma
+//@ ensures [value] c16Total(c16Sigma) == c16Total(old(c16Sigma))
+
+//@ func makeLog$1 props C16
+//@ modifies all, c16Sigma
+//@ ensures [value] c16Total(c16Sigma) == c16Total(old(c16Sigma))
+
+// SELFDESTRUCT: the balance goes to the beneficiary; it is burnt exactly when the beneficiary is the contract itself.
+//@ func opSuicide props C16
+//@ requires contract != nil && interpreter != nil && interpreter.evm != nil
+//@ let self = c16AddrOf(contract.self)
+//@ modifies all, c16Sigma
+//@ ensures [value] c16Total(c16Sigma) <= c16Total(old(c16Sigma))
+//@ ensures [burn-only-to-self] c16Total(c16Sigma) == c16Total(old(c16Sigma)) || c16Total(c16Sigma) == c16Total(old(c16Sigma)) - c16Bal(old(c16Sigma), self)
+//@ ensures [emptied] c16Bal(c16Sigma, self) == 0
+
+// ---------------------------------------------------------------------------------------------------------------
+// Dynamic gas and memory-size functions of the entries that are not flagged `writes`: no state write (c16ROSafeGas).
+// The gas functions of the writers touch only the refund counter: the total of balances is unchanged.
+// ---------------------------------------------------------------------------------------------------------------
+
+//@ func gasCall props C16
+//@ modifies all
+//@ ensures [no-state-write] c16Sigma == old(c16Sigma) && c16Snap == old(c16Snap) && c16Next == old(c16Next)
+
+//@ func gasCallCode props C16
+//@ modifies all
+//@ ensures [no-state-write] c16Sigma == old(c16Sigma) && c16Snap == old(c16Snap) && c16Next == old(c16Next)
+
+//@ func gasDelegateCall props C16
+//@ modifies all
+//@ ensures [no-state-write] c16Sigma == old(c16Sigma) && c16Snap == old(c16Snap) && c16Next == old(c16Next)
+
+//@ func gasStaticCall props C16
+//@ modifies all
+//@ ensures [no-state-write] c16Sigma == old(c16Sigma) && c16Snap == old(c16Snap) && c16Next == old(c16Next)
+
+//@ func memoryCopierGas$1 props C16
+//@ modifies all
+//@ ensures [no-state-write] c16Sigma == old(c16Sigma) && c16Snap == old(c16Snap) && c16Next == old(c16Next)
+
+//@ func gasSha3 props C16
+//@ modifies all
+//@ ensures [no-state-write] c16Sigma == old(c16Sigma) && c16Snap == old(c16Snap) && c16Next == old(c16Next)
+
+//@ func gasExp props C16
+//@ modifies all
+//@ ensures [no-state-write] c16Sigma == old(c16Sigma) && c16Snap == old(c16Snap) && c16Next == old(c16Next)
+
+//@ func pureMemoryGascost props C16
+//@ modifies all
+//@ ensures [no-state-write] c16Sigma == old(c16Sigma) && c16Snap == old(c16Snap) && c16Next == old(c16Next)
+
+//@ func gasCreate props C16
+//@ modifies all
+//@ ensures [no-state-write] c16Sigma == old(c16Sigma) && c16Snap == old(c16Snap) && c16Next == old(c16Next)
+
+//@ func gasCreate2 props C16
+//@ modifies all
+//@ ensures [no-state-write] c16Sigma == old(c16Sigma) && c16Snap == old(c16Snap) && c16Next == old(c16Next)
+
+//@ func makeGasLog$1 props C16
+//@ modifies all
+//@ ensures [no-state-write] c16Sigma == old(c16Sigma) && c16Snap == old(c16Snap) && c16Next == old(c16Next)
+
+//@ func gasSStore props C16
+//@ modifies all, c16Sigma
+//@ ensures [value] c16Total(c16Sigma) == c16Total(old(c16Sigma))
+
+//@ func gasSStoreEIP2200 props C16
+//@ modifies all, c16Sigma
+//@ ensures [value] c16Total(c16Sigma) == c16Total(old(c16Sigma))
+
+//@ func gasSuicide props C16
+//@ modifies all, c16Sigma
+//@ ensures [value] c16Total(c16Sigma) == c16Total(old(c16Sigma))
+
+//@ func memoryCall props C16
+//@ modifies all
+//@ ensures [no-state-write] c16Sigma == old(c16Sigma) && c16Snap == old(c16Snap) && c16Next == old(c16Next)
+
+//@ func memoryCallDataCopy props C16
+//@ modifies all
+//@ ensures [no-state-write] c16Sigma == old(c16Sigma) && c16Snap == old(c16Snap) && c16Next == old(c16Next)
+
+//@ func memoryCodeCopy props C16
+//@ modifies all
+//@ ensures [no-state-write] c16Sigma == old(c16Sigma) && c16Snap == old(c16Snap) && c16Next == old(c16Next)
+
+//@ func memoryCreate props C16
+//@ modifies all
+//@ ensures [no-state-write] c16Sigma == old(c16Sigma) && c16Snap == old(c16Snap) && c16Next == old(c16Next)
+
+//@ func memoryCreate2 props C16
+//@ modifies all
+//@ ensures [no-state-write] c16Sigma == old(c16Sigma) && c16Snap == old(c16Snap) && c16Next == old(c16Next)
+
+//@ func memoryDelegateCall props C16
+//@ modifies all
+//@ ensures [no-state-write] c16Sigma == old(c16Sigma) && c16Snap == old(c16Snap) && c16Next == old(c16Next)
+
+//@ func memoryExtCodeCopy props C16
+//@ modifies all
+//@ ensures [no-state-write] c16Sigma == old(c16Sigma) && c16Snap == old(c16Snap) && c16Next == old(c16Next)
+
+//@ func memoryLog props C16
+//@ modifies all
+//@ ensures [no-state-write] c16Sigma == old(c16Sigma) && c16Snap == old(c16Snap) && c16Next == old(c16Next)
+
+//@ func memoryMLoad props C16
+//@ modifies all
+//@ ensures [no-state-write] c16Sigma == old(c16Sigma) && c16Snap == old(c16Snap) && c16Next == old(c16Next)
+
+//@ func memoryMStore props C16
+//@ modifies all
+//@ ensures [no-state-write] c16Sigma == old(c16Sigma) && c16Snap == old(c16Snap) && c16Next == old(c16Next)
+
+//@ func memoryMStore8 props C16
+//@ modifies all
+//@ ensures [no-state-write] c16Sigma == old(c16Sigma) && c16Snap == old(c16Snap) && c16Next == old(c16Next)
+
+//@ func memoryReturn props C16
+//@ modifies all
+//@ ensures [no-state-write] c16Sigma == old(c16Sigma) && c16Snap == old(c16Snap) && c16Next == old(c16Next)
+
+//@ func memoryReturnDataCopy props C16
+//@ modifies all
+//@ ensures [no-state-write] c16Sigma == old(c16Sigma) && c16Snap == old(c16Snap) && c16Next == old(c16Next)
+
+//@ func memoryRevert props C16
+//@ modifies all
+//@ ensures [no-state-write] c16Sigma == old(c16Sigma) && c16Snap == old(c16Snap) && c16Next == old(c16Next)
+
+//@ func memorySha3 props C16
+//@ modifies all
+//@ ensures [no-state-write] c16Sigma == old(c16Sigma) && c16Snap == old(c16Snap) && c16Next == old(c16Next)
+
+//@ func memoryStaticCall props C16
+//@ modifies all
+//@ ensures [no-state-write] c16Sigma == old(c16Sigma) && c16Snap == old(c16Snap) && c16Next == old(c16Next)
+
+
+// ---------------------------------------------------------------------------------------------------------------
+// The jump table: symbolic execution of the real constructor functions shows that every valid entry that is not flagged
+// `writes` runs a read-only-safe opcode function and a read-only-safe gas function, and that opCall sits only at CALL.
+// A new state-writing opcode without the flag, or a dropped flag, breaks [table-ok] of the constructor that adds it.
+// ---------------------------------------------------------------------------------------------------------------
+
+// package-level gas function variables (gas_table.go:99-104): initialised once, never assigned again
+//@ axiom [c16-gas-vars] gasCallDataCopy == memoryCopierGas$1 && gasCodeCopy == memoryCopierGas$1 && gasExtCodeCopy == memoryCopierGas$1 && gasReturnDataCopy == memoryCopierGas$1
+
+//@ func newFrontierInstructionSet props C16
+//@ modifies nothing
+//@ ensures [table-ok] c16TableOK(result)
+//@ ensures [writers-flagged] result[SSTORE].execute == opSstore && result[SSTORE].writes && result[SELFDESTRUCT].execute == opSuicide && result[SELFDESTRUCT].writes && result[CREATE].execute == opCreate && result[CREATE].writes &&
+//@     result[LOG0].writes && result[LOG1].writes && result[LOG2].writes && result[LOG3].writes && result[LOG4].writes && result[CALL].execute == opCall
+
+//@ func newHomesteadInstructionSet props C16
+//@ modifies nothing
+//@ ensures [table-ok] c16TableOK(result)
+//@ ensures [writers-flagged] result[SSTORE].execute == opSstore && result[SSTORE].writes && result[SELFDESTRUCT].execute == opSuicide && result[SELFDESTRUCT].writes && result[CREATE].execute == opCreate && result[CREATE].writes &&
+//@     result[LOG0].writes && result[LOG1].writes && result[LOG2].writes && result[LOG3].writes && result[LOG4].writes && result[CALL].execute == opCall
+
+//@ func newByzantiumInstructionSet props C16
+//@ modifies nothing
+//@ ensures [table-ok] c16TableOK(result)
+//@ ensures [writers-flagged] result[SSTORE].execute == opSstore && result[SSTORE].writes && result[SELFDESTRUCT].execute == opSuicide && result[SELFDESTRUCT].writes && result[CREATE].execute == opCreate && result[CREATE].writes &&
+//@     result[LOG0].writes && result[LOG1].writes && result[LOG2].writes && result[LOG3].writes && result[LOG4].writes && result[CALL].execute == opCall && result[STATICCALL].execute == opStaticCall
+
+//@ func newConstantinopleInstructionSet props C16
+//@ modifies nothing
+//@ ensures [table-ok] c16TableOK(result)
+//@ ensures [writers-flagged] result[SSTORE].execute == opSstore && result[SSTORE].writes && result[SELFDESTRUCT].execute == opSuicide && result[SELFDESTRUCT].writes && result[CREATE].execute == opCreate && result[CREATE].writes &&
+//@     result[LOG0].writes && result[LOG1].writes && result[LOG2].writes && result[LOG3].writes && result[LOG4].writes && result[CALL].execute == opCall && result[STATICCALL].execute == opStaticCall &&
+//@     result[CREATE2].execute == opCreate2 && result[CREATE2].writes
+
+//@ func newIstanbulInstructionSet props C16
+//@ modifies nothing
+//@ ensures [table-ok] c16TableOK(result)
+//@ ensures [writers-flagged] result[SSTORE].execute == opSstore && result[SSTORE].writes && result[SELFDESTRUCT].execute == opSuicide && result[SELFDESTRUCT].writes && result[CREATE].execute == opCreate && result[CREATE].writes &&
+//@     result[LOG0].writes && result[LOG1].writes && result[LOG2].writes && result[LOG3].writes && result[LOG4].writes && result[CALL].execute == opCall && result[STATICCALL].execute == opStaticCall &&
+//@     result[CREATE2].execute == opCreate2 && result[CREATE2].writes
+
+// istanbulInstructionSet is a package-level variable initialised with newIstanbulInstructionSet() ([table-ok] above)
+// and never assigned again (jump_table.go:55); package initialisation is not modelled, hence the assume.
+//@ func GetJumpTable props C16
+//@ assume [pkg-init] c16TableOK(istanbulInstructionSet)
+//@ modifies nothing
+//@ ensures [table-ok] c16TableOK(result)
